@@ -81,6 +81,33 @@ let parse_ascript s =
 let fmt_asink rs (s : asink) =
   Printf.sprintf "%s|calls=%d|%s" rs (int_of_nat s.as_polls) (fmt_bytes s.as_bytes)
 
+(* ---- CSI / tabix index text (C17's case format, see harness/src/shared/c14_deep7.rs): parsing only ---- *)
+let opt s f = if s = "-" then None else Some (f s)
+let parse_list sep s f = if s = "_" then [] else List.map f (split_on sep s)
+let parse_name s = if s = "." then [] else bytes_of_hex s
+let parse_hdr s = opt s (fun s -> match split_on ':' s with
+  | [f; sq; bg; en; mt; sk; nm] ->
+      { h_format = (match f with "g" -> FGeneric false | "b" -> FGeneric true | "s" -> FSam | "v" -> FVcf
+                    | _ -> failwith "fmt");
+        h_seq = n_of_dec sq; h_beg = n_of_dec bg; h_end = opt en n_of_dec; h_meta = n_of_dec mt;
+        h_skip = n_of_dec sk; h_names = parse_list ',' nm parse_name }
+  | _ -> failwith "hdr")
+let parse_cpairs s = parse_list ',' s (fun p -> match split_on ':' p with
+  | [a; b] -> (n_of_dec a, n_of_dec b) | _ -> failwith "pair")
+let parse_xmeta s = opt s (fun m -> match split_on ':' m with
+  | [a; b; c; d] -> { m_beg = n_of_dec a; m_end = n_of_dec b; m_mapped = n_of_dec c; m_unmapped = n_of_dec d }
+  | _ -> failwith "meta")
+let parse_xbins s = parse_list ';' s (fun b -> match split_on '=' b with
+  | [id; cs] -> (n_of_dec id, parse_cpairs cs) | _ -> failwith "bin")
+let parse_cref s = match split_on '|' s with
+  | [b; l; m] -> { cr_bins = parse_xbins b; cr_loffs = parse_cpairs l; cr_meta = parse_xmeta m }
+  | _ -> failwith "cref"
+let parse_tref s = match split_on '|' s with
+  | [b; m; iv] -> { br_bins = parse_xbins b; br_meta = parse_xmeta m; br_intervals = parse_list ',' iv n_of_dec }
+  | _ -> failwith "tref"
+
+let fmt_xres r = match r with XDone r -> fmt_res r | XPanic -> "Panic"
+
 let handle kind a =
   match kind with
   | "wa" ->
@@ -151,6 +178,44 @@ let handle kind a =
         else
           gzi_write_index (if a.(2) = "_" then [] else List.map parse_pair (split_on ',' a.(2))) s0 in
       Some (fmt_sink (fmt_res r) s)
+  | "ixb" ->
+      (* ixb fmt ending script frames <index text>: csi / tabix write_index, then try_finish (T) or
+         finish (X), then Drop; the model derives the calls on the BGZF writer from the index *)
+      let o = if a.(1) = "T" then BTryFinish else BFinish in
+      let s0 = { sbytes = []; sscript = parse_script a.(2); scalls = O } in
+      let frames = parse_frames a.(3) in
+      let mb = nat_of_int 65495 in
+      let (cs, (rs, s)) =
+        if a.(0) = "csi" then
+          let i = { ci_ms = n_of_dec a.(4); ci_depth = nat_of_int (int_of_string a.(5)); ci_header = parse_hdr a.(6);
+                    ci_refs = parse_list '/' a.(7) parse_cref; ci_unplaced = opt a.(8) n_of_dec } in
+          (c_csi i, csi_life mb frames i o s0)
+        else
+          let i = { ti_header = parse_hdr a.(4); ti_refs = parse_list '/' a.(5) parse_tref;
+                    ti_unplaced = opt a.(6) n_of_dec } in
+          (c_tbi i, tbi_life mb frames i o s0) in
+      let payload = if a.(2) = "_" then fmt_bytes (x_accepted cs) else "-" in
+      Some (Printf.sprintf "%s|%s" (fmt_sink (String.concat "," (List.map fmt_xres rs)) s) payload)
+  | "crc" ->
+      (* crc seed script hdrlens recs fin: the CRAM life with the data container's calls derived by
+         the model from the descriptor (header field lengths; per block id.csize.usize.data lengths) *)
+      let nats sep t = if t = "_" then [] else List.map (fun x -> nat_of_int (int_of_string x)) (split_on sep t) in
+      let cont t = match split_on ',' t with
+        | [ctx; nrec; counter; bases; nb; nl; lms; blocks] ->
+            let n x = nat_of_int (int_of_string x) in
+            { cc_ctx = nats '.' ctx; cc_nrec = n nrec; cc_counter = n counter; cc_bases = n bases;
+              cc_nblocks = n nb; cc_nland = n nl; cc_landmarks = nats '.' lms;
+              cc_blocks = List.map (fun b -> match nats '.' b with
+                | [i; c; u; d] -> { cb_id = i; cb_csize = c; cb_usize = u; cb_data = d }
+                | _ -> failwith "block") (split_on ';' blocks) }
+        | _ -> failwith "container" in
+      let conts t = if t = "_" then [] else List.map cont (split_on '/' t) in
+      let recs = if a.(3) = "-" then [] else List.map conts (split_on '|' a.(3)) in
+      let fin = conts a.(4) in
+      if not (List.for_all cc_wf (fin @ List.concat recs)) then Some "ill-formed" else
+      let (rs, s) = cramc_run (nats ',' a.(2)) recs fin
+                      { sbytes = []; sscript = parse_script a.(1); scalls = O } in
+      Some (Printf.sprintf "%s|calls=%d" (fmt_results rs) (int_of_nat s.scalls))
   | "fob" ->
       (* fob fmt ending seed script ops frames: a format writer over the BGZF writer; ops = the
          BGZF-level calls of each explicit operation (';' between operations, "-" = no call) *)
